@@ -177,8 +177,8 @@ KANI = []
 UNITS += [
     # the innermost task of restore_contents: allocate the file on first touch, then write one blob at its offset
     Unit(name="restore_write_blob", file=RS, kind="block", within="fn restore_contents<S: Open>(",
-         anchor="let path = &filenames[file_idx];", block_end="p.inc(size);",
-         block_sig="fn restore_write_blob(dest: &VDest, filenames: &Vec<DestPath>, sizes: &mut Vec<u64>, file_idx: usize, start: u64, data: BytesW, is_sparse: bool, size: u64, fs: &mut DestFs, Ghost(planned): Ghost<Seq<u64>>)",
+         anchor="@closure:s1.spawn(move |_|",
+         block_sig="fn restore_write_blob(dest: &VDest, filenames: &Vec<DestPath>, sizes: &mut Vec<u64>, file_idx: usize, start: u64, data: BytesW, is_sparse: bool, size: u64, p: &ProgressW, fs: &mut DestFs, Ghost(planned): Ghost<Seq<u64>>)",
          block_tail="",
          functions=["commands::restore::restore_contents (per-destination task: allocate on first touch, write the blob at its offset; sparse skip)"],
          rewrites=[
